@@ -5,8 +5,10 @@ CONSTANTS
   MaxParts = 1601
   Weak_BitArrayOpsAssumeEqualSize = FALSE
   Weak_LastCommitNilDeref = FALSE
-  Weak_SetRoundRecreatesRound = FALSE
-INIT TInit
-NEXT TNext
-INVARIANTS TargetedNoCrash TargetedNoHalt
+  Weak_SetRoundRecreatesRound = TRUE
+  MaxMsgs = 3
+INIT GInit
+NEXT GNext
+INVARIANTS NeverCrashes NeverHalts StoredSizesBounded
+VIEW GView
 CHECK_DEADLOCK FALSE
